@@ -30,10 +30,14 @@ SIZES = {
 }
 
 
+CAMPAIGN_SOURCES = ["campaign.py", "arena.py", "buckets.py", "gvalid.py", "model.py", "refsets.py", "earley.py", "interp.py", "sample.py", "checks/c10.py"]
+
+
 def machinery_hash():
+    """hash of what determines a campaign's result (not of the whole harness: reporting code does not)"""
     h = hashlib.sha256()
     root = Path(__file__).resolve().parent
-    for f in sorted(list(root.glob("*.py")) + list((root.parent / "rust" / "arena_tmpl").glob("*"))):
+    for f in [root / x for x in CAMPAIGN_SOURCES] + sorted((root.parent / "rust" / "arena_tmpl").glob("*")):
         h.update(f.read_bytes())
     return h.hexdigest()[:10]
 
